@@ -135,13 +135,126 @@ def run(an: Analysis, rep):
         # ---- R01.5
         r015(an, rep, V)
     from .common import SharedRules
-    from . import c02, c10
+    from . import c02, c09, c10
+    rep.run(r016, an, rep)
+    rep.run(r015_order, an, rep)
+    rep.run(c09.duplicates_key_rule, an, SharedRules(rep, "R01.K", "table entries the encoder cannot tell apart by key keep their position (shared with C09's R09.2): otherwise re-encoding merges them"))
     rep.run(c10.format_rules, an, SharedRules(rep, "R01.L", "line-table format constants (shared with C10's R10.*): byte equality of co_lnotab / co_linetable needs them"))
     rep.run(c02.jump_rules, an, SharedRules(rep, "R01.J", "jump scale / offsets / cell-free shift on both sides (shared with C02's R02.3-R02.5): byte equality of co_code needs them"))
     for (cq, fname), (ok, cfg, why, where) in sorted(produced_any.items()):
         rep.add("R01.3", f"{cq}.{fname}::produced", ok, where, why + (f" (under {cfg})" if ok else " (under every interpreter version)"), config=cfg)
     rep.stats.update(an.stats(interps))
     rep.assumptions += ["code() constructor signatures and compiler-emittable flags as frozen in reference/contracts.py"]
+
+
+def r016(an: Analysis, rep):
+    """A jump that was encoded with more than one code unit keeps that width, whatever its operand: the minimal width depends on the final layout."""
+    from .c02 import find_parser
+    from .c03 import eval_decision_tree, find_size_fn
+    from .encode_model import inline_locals
+    from sa.feval import callable_for_feval
+    import itertools
+    rep.rule("R01.6", "the width of every multi-unit jump is recorded", 1)
+    it, _ = an.interp("from_code")
+    sf = find_size_fn(an)
+    size = callable_for_feval(lambda v: eval_decision_tree(sf, {sf.params[0]: v}))
+    done = False
+    for f in an.closure("from_code"):
+        for n in ast.walk(f.node):
+            if isinstance(n, ast.keyword) and n.arg == "_n_args_override":
+                if isinstance(n.value, ast.Constant):
+                    done = True
+                    rep.add("R01.6", f"{f.qual}::width of multi-unit jumps is recorded", False, loc(f.module, n.value),
+                            f"the decoder stores the constant {n.value.value!r} as the width override: redundant EXTENDED_ARG prefixes of jumps are not reproduced")
+                    continue
+                e = inline_locals(f.node, n.value)
+                # under the Jump branch the variable was assigned from an expression over the unit count; find that assignment
+                defs = [a for a in ast.walk(f.node) if isinstance(a, ast.Assign) and isinstance(n.value, ast.Name) and any(isinstance(t, ast.Name) and t.id == n.value.id for t in a.targets)]
+                cands = [d.value for d in defs if not (isinstance(d.value, ast.Constant) and d.value.value is None)] or [e]
+                for expr in cands:
+                    names = sorted({x.id for x in ast.walk(expr) if isinstance(x, ast.Name)} - {sf.name})
+                    bad = []
+                    # which name is the unit count?  the one for which the policy returns it; try each
+                    ok_any = False
+                    for cnt in names:
+                        others = [x for x in names if x != cnt]
+                        good = True
+                        for nunits in (2, 3, 4):
+                            for combo in itertools.product((0, 1, 255, 256, 70000), repeat=len(others)):
+                                env = {sf.name: size, cnt: nunits}
+                                env.update(dict(zip(others, combo)))
+                                try:
+                                    got = feval(expr, env)
+                                except Exception:
+                                    good = False
+                                    break
+                                if got != nunits:
+                                    good = False
+                                    bad.append((nunits, dict(zip(others, combo)), got))
+                                    break
+                            if not good:
+                                break
+                        if good:
+                            ok_any = True
+                            break
+                    done = True
+                    rep.add("R01.6", f"{f.qual}::width of multi-unit jumps is recorded", ok_any, loc(f.module, expr),
+                            f"`{norm_src(expr)}` records the unit count whenever it is above 1" if ok_any else
+                            f"`{norm_src(expr)}` does not record the width of every jump encoded with more than one unit (e.g. units={bad[0][0]}, {bad[0][1]} -> {bad[0][2]!r}): "
+                            f"whether the prefix is 'needed' depends on the final layout, which is not known while decoding - CPython's peephole pass leaves such "
+                            f"prefixes, and the re-encoded co_code comes out shorter")
+    if not done:
+        raise AnalysisError("assignment of Instruction._n_args_override in the decoder not found")
+
+
+def r015_order(an: Analysis, rep):
+    """Both shifts by the first line number cover every line of the mapping: encoder - after the last line was stored; decoder - before the first line is consumed."""
+    lm = an.prog.cls("code_data._line_mapping::LineMapping")
+    shift = next((m for m in lm.methods.values() if len(m.params) == 2 and any(isinstance(x, ast.AugAssign) for x in ast.walk(m.node))), None)
+    if shift is None:
+        raise AnalysisError("LineMapping shift method not found")
+    for side, entry in (("encode", "to_code"), ("decode", "from_code")):
+        it, _ = an.interp(entry)
+        for f in an.closure(entry):
+            calls = []
+            for i, st in enumerate(f.node.body):
+                for c in ast.walk(st):
+                    if isinstance(c, ast.Call) and shift.qual in it.callees.get(id(c), ()):
+                        calls.append((i, c))
+            if not calls:
+                continue
+            si, sc = calls[0]
+            recv = it.value_at(sc.func.value)
+            problems = []
+            for j, st in enumerate(f.node.body):
+                if j == si:
+                    continue
+                for c in ast.walk(st):
+                    if not isinstance(c, ast.Call):
+                        continue
+                    # another use of the same mapping object: as receiver or as argument
+                    uses = False
+                    if isinstance(c.func, ast.Attribute) and it.value_at(c.func.value) & recv:
+                        uses = True
+                    if any(it.value_at(a) & recv for a in c.args):
+                        uses = True
+                    if not uses:
+                        continue
+                    writes = isinstance(c.func, ast.Attribute) and any(q.startswith(lm.qual + ".") and _stores_lines(an.prog.find_function(q)) for q in it.callees.get(id(c), ()))
+                    consumes = any(it.value_at(a) & recv for a in c.args) or (isinstance(c.func, ast.Attribute) and not writes and c.func.attr != shift.name)
+                    if side == "encode" and writes and j > si:
+                        problems.append(f"`{norm_src(c)}` stores a line after the shift")
+                    if side == "decode" and consumes and j < si:
+                        problems.append(f"`{norm_src(c)}` reads the mapping before the shift")
+            rep.add("R01.5", f"{f.qual}::first-line shift covers every line ({side})", not problems, loc(f.module, sc),
+                    "; ".join(problems[:2]) + ": that line is off by co_firstlineno in the re-encoded table / decoded data" if problems
+                    else f"the shift `{norm_src(sc)}` is ordered {'after every store into' if side == 'encode' else 'before every read of'} the mapping")
+
+
+def _stores_lines(m) -> bool:
+    if m is None:
+        return False
+    return any(isinstance(x, ast.Assign) and isinstance(x.targets[0], ast.Subscript) for x in ast.walk(m.node))
 
 
 _disp_cache = {}
